@@ -548,8 +548,8 @@ func finish(eventsPath, emitPath, keysPath, verifyPath string) {
 		}
 		// (4) tampering and truncation, on a message the real Verify accepts
 		for bi, buf := range bufs {
-			if bi > 0 && !hx.Thorough() {
-				break // quick: the real one if Sign produced it, else the built one
+			if bi > 0 && (!hx.Thorough() || len(buf) > 500) {
+				break // the real one if Sign produced it, else the built one; thorough: both when short
 			}
 			if err, _ := receive(keyrr, buf); err != nil {
 				continue // rejected as it is (judged in pass 2): nothing to learn from altering it
@@ -560,6 +560,8 @@ func finish(eventsPath, emitPath, keysPath, verifyPath string) {
 			stride := 1
 			if !hx.Thorough() && len(buf) > 700 {
 				stride = 1 + len(buf)/350
+			} else if len(buf) > 2000 {
+				stride = 1 + len(buf)/1000
 			}
 			for _, rg := range em.Regions {
 				for off := rg.From; off <= rg.To && off < len(buf); off++ {
